@@ -105,8 +105,10 @@ theorem tickLoop_steps (n : Nat) (e : Exec) (h : Inv e) :
     · exact ⟨t', hg', he ▸ hrun⟩
     · refine ⟨t', hg', hrun.trans (sameUpToSched_steps ?_ hs)⟩
       have hb := ht0.inq_c rfl
-      rcases runTask_cases t hb with ⟨_, hr⟩ | ⟨_, hr | hr | hr | hr | ⟨o, _, _, hr⟩⟩ <;> rw [hr] at hk ⊢ <;>
+      rcases runTask_cases t hb with ⟨_, hr⟩ | ⟨_, hr | hr | hr | hr | ⟨tb, o, k, _, hkk, hr⟩⟩ <;> rw [hr] at hk ⊢ <;>
         simp at hk
+      rotate_left
+      · rcases hkk with rfl | rfl <;> simp at hk
       exact Or.inr (Or.inr (by simp [polledTask, ht0.inq_fd rfl]))
   refine tickLoop_induct (fun _ e r => ∀ x t, e.get? x = some t → ∃ t', r.1.get? x = some t' ∧ TaskSteps true t t')
     ?_ ?_ ?_ ?_ n e h
@@ -152,8 +154,9 @@ theorem taskDropByExecutor_wakers (t : TaskSt) : (taskDropByExecutor t).wakers =
   cases c <;> cases hw <;> cases nsw <;> simp [taskDropByExecutor]
 
 theorem runTask_wakers (t : TaskSt) (hb : t.word.completed = false) : t.wakers ≤ (runTask t).1.wakers := by
-  rcases runTask_cases t hb with ⟨_, hr⟩ | ⟨_, hr | hr | hr | hr | ⟨o, _, _, hr⟩⟩ <;> rw [hr] <;>
+  rcases runTask_cases t hb with ⟨_, hr⟩ | ⟨_, hr | hr | hr | hr | ⟨tb, o, k, htb, _, hr⟩⟩ <;> rw [hr] <;>
     simp [droppedTask, polledTask, clonedTask, finishedTask, dropRef_wakers, taskDropByExecutor_wakers]
+  rcases htb with rfl | rfl <;> simp [cloneInc]
 
 /-- waker clones only accumulate during a tick -/
 theorem tickLoop_wakers (n : Nat) (e : Exec) (h : Inv e) :
@@ -462,7 +465,7 @@ theorem runTask_mono (t : TaskSt) : Mono t (runTask t).1 := by
       all_goals
         simp only [runTask, hn, hs, g_isCancelled, Bool.not_true, Bool.false_eq_true, if_false]
         refine Mono.trans ?_ (Mono.trans (taskDropByExecutor_mono _) (dropRef_mono _))
-        constructor <;> simp [hn]
+        constructor <;> simp [hn] <;> (try split) <;> simp_all
 
 theorem taskStep_mono {r : Bool} {t b : TaskSt} (h : TaskStep r t b) : Mono t b := by
   cases h with
